@@ -340,9 +340,14 @@ Proof.
   - intros [= <-]. apply init_ok.
 Qed.
 
+Lemma empty_ok : OtoInv (mkOto [] []).
+Proof. constructor; simpl; [constructor|constructor|]. intros k v. simpl. split; discriminate. Qed.
+
 Lemma hstep_ok h hop : Forall OtoInv h -> Forall OtoInv (fst (oto_hstep h hop)).
 Proof.
-  intro H. destruct hop as [u kvs|i s|i s op|ior i s j t]; simpl.
+  intro H. destruct hop as [u kvs|i s|i s op|ior i s j t|keys v]; simpl.
+  5: { destruct (existsb kv_unhashable (fromkeys_pairs keys v)); simpl; trivial.
+       apply Forall_snoc; trivial. apply update_ok, empty_ok. }
   - destruct (oto_new u kvs) eqn:E; simpl; trivial.
     apply Forall_snoc; trivial. eapply oto_new_ok; eauto.
   - destruct (nth_error h i) eqn:E; simpl; trivial. apply Forall_snoc; trivial. apply init_ok.
